@@ -25,6 +25,8 @@ fn set_limits() {
 
 fn run_steps(sess: &mut Session, req: &Value, each_fresh: bool) -> Value {
     let fuel = req.get("fuel").and_then(|v| v.as_u64()).unwrap_or(UNLIMITED);
+    // "alloc_cap": largest single allocation (bytes) a step may request before its fuel is zeroed
+    let cap = req.get("alloc_cap").and_then(|v| v.as_u64()).unwrap_or(u64::MAX);
     let mut results = Vec::new();
     let empty = Vec::new();
     let steps = req.get("steps").and_then(|v| v.as_array()).unwrap_or(&empty);
@@ -35,7 +37,9 @@ fn run_steps(sess: &mut Session, req: &Value, each_fresh: bool) -> Value {
         let src = st.get("src").and_then(|v| v.as_str()).unwrap_or("");
         let alloc = st.get("alloc").and_then(|v| v.as_bool()).unwrap_or(false);
         let sfuel = st.get("fuel").and_then(|v| v.as_u64()).unwrap_or(fuel);
+        sess.alloc_cap = cap;
         let mut r = sess.eval_opt(src, sfuel, alloc);
+        sess.alloc_cap = u64::MAX;
         if let Some(names) = st.get("snap").and_then(|v| v.as_array()) {
             let names: Vec<String> = names.iter().filter_map(|n| n.as_str().map(|s| s.to_string())).collect();
             if sess.poisoned {
